@@ -43,7 +43,9 @@ MUST_REACH = set(ENTRIES) - {D + 'von_mises_fisher::VonMisesFisher.log_pdf', D +
 
 
 def raw_param(ev, fn, p):
-    return ev.param_av(fn, p, kind=frozenset(['array']), norm='RAW')
+    av = ev.param_av(fn, p, kind=frozenset(['array']), norm='RAW')
+    # ('scale', p): taint of everything that still depends on the magnitude of the observation (removed by exact normalisers)
+    return av.replace(deps=av.deps | {('scale', p)})
 
 
 def analyse_entry(run, ev, prog, q, params, config=''):
@@ -81,7 +83,27 @@ def analyse_entry(run, ev, prog, q, params, config=''):
                           f'`{pname}` reaches scale-dependent {f.qual} {got}; it must have unit norm along axis {axis} '
                           f'(observation parameter(s) {obs} of {q})',
                           construct=f'R-NORM::{q}::{",".join(obs)}::{f.qual}::{path[-1]}', path=full)
+    # output taint: nothing that the entry returns (posterior, log-density, fields of the fitted model) still depends on the
+    # magnitude of the observation - covers side channels that bypass the sinks' observation argument (a start value, a
+    # weight or a floor computed from the raw observation)
+    leaks = scale_taint(ctx.result) if ctx.result is not None else set()
+    short = q.split('::')[1]
+    run.check(not leaks, 'R-NORM', f'{short}{config}: result is free of the observation\'s scale', fn.loc(), 'no returned value / stored field carries the scale taint',
+              f'returned value still depends on the magnitude of the raw observation through {sorted(map(str, leaks))} (a quantity computed from the observation before / beside its '
+              f'projection to the unit sphere reaches the result)', construct=f'R-NORM::{q}::output-taint')
     return reached
+
+
+def scale_taint(av, depth=0):
+    out = set(d for d in av.deps if d[0] == 'scale')
+    if av.tup:
+        for x in av.tup:
+            out |= scale_taint(x, depth + 1)
+    if av.obj is not None and depth < 4:
+        for k, v in av.obj.fields.items():
+            if scale_taint(v, depth + 1):
+                out.add(('field', k))
+    return out
 
 
 def check(run):
